@@ -706,7 +706,7 @@ theorem C15_same_start_nodes (env : Env) (t t' : Tree) (path : Path)
     ∃ s s', t.at? q = some s ∧ t'.at? q' = some s' ∧ s'.value = s.value ∧ stripNs s' = stripNs s := by
   obtain ⟨s, s', h1, h2, h3⟩ := startPaths_match (C15_frame env t t' path hd).1 i q q' hq hq'
   refine ⟨s, s', h1, h2, ?_, h3⟩
-  rw [← stripNs_value s', h3, stripNs_value]
+  rw [← dis_stripNs_value s', h3, dis_stripNs_value]
 
 /-- ⟦C15_serialises_from_every_start⟧ **After the call `to_string` succeeds from every start node from which it
     succeeded before** — with "serialises" as the property words it (`to_string` returned a text): `t` in the
